@@ -218,19 +218,22 @@ class Oracle:
                 d = self.H[h].hedge(d)
             contrib[var].append((ov.term(term), np.nan_to_num(d, nan=0.0, neginf=0.0, posinf=1.0), rb.implication))
 
-    def defuzzified(self, ov, contributions):
-        """raw defuzzified value of the oracle's own contribution set (before the lock/default cascade)"""
+    def defuzzified(self, ov, contributions, declared=None):
+        """raw defuzzified value of the oracle's own contribution set (before the lock/default cascade); `declared` = the
+        defuzzifier as the workload configured it ({cls, resolution | type}), when it knows"""
         fl = self.fl
-        dz = fresh_defuzzifier(fl, ov.defuzzifier)
+        dz = fresh_defuzzifier(fl, ov.defuzzifier, declared)
         if isinstance(dz, fl.IntegralDefuzzifier):
             return dz.defuzzify(make_own_set(fl, ov.aggregation, contributions), ov.minimum, ov.maximum)
         fresh = fl.Aggregated(ov.name, ov.minimum, ov.maximum, ov.aggregation, [fl.Activated(t, d, i) for t, d, i in contributions])
         return dz.defuzzify(fresh, ov.minimum, ov.maximum)
 
 
-def fresh_defuzzifier(fl, dz):
+def fresh_defuzzifier(fl, dz, declared=None):
     """a newly constructed defuzzifier of the same class and declared parameters: whatever the engine's own object has seen
     before (another output variable, an earlier step) is not part of the reference value"""
+    if declared and dz is not None:
+        return getattr(fl, declared["cls"])(declared["resolution"]) if "resolution" in declared else getattr(fl, declared["cls"])(declared["type"])
     try:
         if type(dz).__module__ == fl.defuzzifier.__name__:
             if isinstance(dz, fl.IntegralDefuzzifier):
